@@ -1,6 +1,7 @@
 package zcnsc
 
 import (
+	"0chain.net/core/sortedmap"
 	"0chain.net/smartcontract/stakepool"
 	"encoding/json"
 	"errors"
@@ -50,7 +51,10 @@ type GlobalNode struct {
 }
 
 func (gn *GlobalNode) UpdateConfig(cfg *config.StringMap) (err error) {
-	for key, value := range cfg.Fields {
+	// sorted keys: with several invalid entries the reported error (the transaction output, which all
+	// nodes must agree on) would otherwise depend on Go's random map iteration order
+	for _, key := range sortedmap.NewFromMap(cfg.Fields).GetKeys() {
+		value := cfg.Fields[key]
 		switch key {
 		case MinMintAmount:
 			amount, err := strconv.ParseFloat(value, 64)
